@@ -143,6 +143,13 @@ func (d *D) Base(idx int, ctx *core.Ctx) *core.Scenario {
 			}
 			content = string(txtar.Format(ar))
 		}
+		if r.Chance(0.45) {
+			// an already formatted file: what -c must answer "yes" to, and what must
+			// not hide an unformatted neighbour on the same command line
+			if ref, ok := reference(name, content); ok {
+				content = ref
+			}
+		}
 		sc.Files = append(sc.Files, core.FileSpec{Name: name, Mode: modes[r.Intn(len(modes))], Content: content})
 		argv = append(argv, name)
 	}
